@@ -52,6 +52,9 @@ C19 = [
  ("S15-params-append", "violation", [(MAIN, "    let file = File::create(&params_file_path).unwrap_or_else(|_| {\n        panic!(\n            \"Failed to create the geographical and calculation parameters file {}\",", "    let file = std::fs::OpenOptions::new().create(true).write(true).open(&params_file_path).unwrap_or_else(|_| {\n        panic!(\n            \"Failed to create the geographical and calculation parameters file {}\",")], "parameter file opened without truncation: a longer earlier file leaves a garbage tail"),
  ("S16-rename-error-ignored", "violation", [(MAIN, "    let file = File::create(&output_file).unwrap_or_else(|_| {\n        panic!(\n            \"Failed to create the calculated prayer times output file {}\",\n            &output_file\n        )\n    });", "    let tmp = format!(\"{}.tmp\", output_file);\n    let file = File::create(&tmp).unwrap_or_else(|_| {\n        panic!(\n            \"Failed to create the calculated prayer times output file {}\",\n            &output_file\n        )\n    });\n    struct Mv(String, String);\n    impl Drop for Mv {\n        fn drop(&mut self) {\n            let _ = fs::rename(&self.0, &self.1);\n        }\n    }\n    let _mv = Mv(tmp, output_file.to_string());")], "atomic save through a temporary file whose rename error is ignored: exit 0 without the output file when rename fails"),
  ("T4-atomic-save-correct", "held", [(MAIN, "    serde_json::to_writer(file, &pts_by_date).unwrap_or_else(|_| {\n        panic!(\n            \"Failed to serialize the calculated prayer times as JSON to the file {}\",\n            &output_file\n        )\n    });", "    serde_json::to_writer(file, &pts_by_date).unwrap_or_else(|_| {\n        panic!(\n            \"Failed to serialize the calculated prayer times as JSON to the file {}\",\n            &output_file\n        )\n    });\n    fs::rename(&tmp, output_file).expect(\"rename\");"), (MAIN, "    let file = File::create(&output_file).unwrap_or_else(|_| {\n        panic!(\n            \"Failed to create the calculated prayer times output file {}\",\n            &output_file\n        )\n    });", "    let tmp = format!(\"{}.tmp\", output_file);\n    let file = File::create(&tmp).unwrap_or_else(|_| {\n        panic!(\n            \"Failed to create the calculated prayer times output file {}\",\n            &output_file\n        )\n    });")], "negative control: correct atomic save (temporary file + checked rename); a crash may leave the temporary file behind, which the property does not forbid"),
+ ("S17-listing-extra-day", "violation", [(MAIN, "    for pts_for_date in pts_by_date {\n        let hijri_date = HijriDate::from(*pts_for_date.0);", "    let extra = pts_by_date.iter().next_back().map(|(d, v)| (d.succ_opt().unwrap(), v.clone()));\n    let mut all = pts_by_date.clone();\n    if let Some((d, v)) = extra {\n        all.insert(d, v);\n    }\n    for pts_for_date in &all {\n        let hijri_date = HijriDate::from(*pts_for_date.0);")], "terminal listing shows one day more than the range"),
+ ("T5-listing-cosmetics", "held", [(MAIN, "    for pts_for_date in pts_by_date {\n        let hijri_date = HijriDate::from(*pts_for_date.0);\n        println!(\n            \"\\n{} ({})\",", "    println!(\"Prayer times\\n============\");\n    for pts_for_date in pts_by_date {\n        let hijri_date = HijriDate::from(*pts_for_date.0);\n        println!(\n            \"\\n-- {} [{}] --\","), (MAIN, "                println!(\"  {}: {}\", pts.0, pts.1.unwrap());", "                println!(\"    {:<8} -> {}\", pts.0.to_string(), pts.1.unwrap());")], "negative control: title line, other punctuation and alignment in the listing"),
+ ("T6-invalid-as-dashes", "held", [(MAIN, "                println!(\"  {}: Invalid\", pts.0);", "                println!(\"  {}: --\", pts.0);")], "negative control: a non-existent time rendered as dashes instead of the word Invalid"),
  ("T1-threshold-0", "held", [(MAIN, "        365,\n", "        0,\n")], "negative control: always parallel; same output (steps flagged as multi-threaded)"),
  ("T2-pretty-params", "held", [(MAIN, "    serde_json::to_writer(file, &params_config)", "    serde_json::to_writer_pretty(file, &params_config)")], "negative control: parameter file pretty-printed; still round-trips"),
  ("T3-buffered-output", "held", [(MAIN, "    serde_json::to_writer(file, &pts_by_date).unwrap_or_else(|_| {", "    let mut file = std::io::BufWriter::new(file);\n    serde_json::to_writer(&mut file, &pts_by_date).and_then(|_| std::io::Write::flush(&mut file).map_err(serde_json::Error::io)).unwrap_or_else(|_| {")], "negative control: buffered writer with explicit flush (different syscall pattern, same bytes, errors still fatal)"),
